@@ -5,10 +5,19 @@ a sequence of well-formed notifications.  After every notification the monitor
 compares the client's room / user view with ``vf.roommodel`` (a fold written
 from the statement), checks the events that the notification caused, and
 watches the global safety nets (logged handler exceptions, loop exceptions).
+
+The library stores ``User`` objects weakly.  Cases therefore run in one of two
+reference modes: 'hold' (the harness keeps the three users alive, so every
+announced value stays comparable) and 'release' (the harness keeps no User /
+Room / event object between notifications, collects garbage before comparing
+and looks users up afresh), in which a user that nothing references may forget
+status and statistics but must remember what was announced about privileges.
+``UserManager.privileged_users`` is compared with the fold in both modes.
 """
 from __future__ import annotations
 
 import copy
+import gc
 import random
 from typing import Any, Optional
 
@@ -31,8 +40,16 @@ RULE = (
     "with seeded arguments and a seeded block list for u1/u2 (none, PRIVATE_MESSAGES, ROOM_MESSAGES, IGNORE, ALL, "
     "SEARCHES|UPLOADS) fixed at client creation. Before the random cases every sequence of length 1 (quick) resp. <= 2 "
     "(thorough) over a fixed alphabet (every kind x both rooms, chat from an unblocked and a blocked user; block list "
-    "u2:ALL) is enumerated. After each notification "
-    "(settled): every field of every room the model knows and status/stats/privileged of the three users are compared "
+    "u2:ALL) is enumerated, each once per reference mode. Reference mode (seeded per case): 'hold' = the harness keeps "
+    "strong references to the three User objects (every announced status/stats value stays comparable); 'release' = "
+    "the harness keeps no reference to any User, Room or event object between notifications (events are reduced to "
+    "plain values inside the listener) and runs gc.collect() before every comparison, so users live and die exactly as "
+    "the library's weak store dictates and are looked up afresh for each comparison. About 15 % of the random cases of "
+    "length >= 5 embed a privilege-lifetime history (announce privileges -> make the user referenced -> announce the "
+    "opposite by list / single-user update -> last reference goes away by UserLeftRoom / LeaveRoom / RoomList -> the "
+    "user is referenced again) padded with random notifications. After each notification "
+    "(settled): every field of every room the model knows, status/stats/privileged of the three users and "
+    "UserManager.privileged_users are compared "
     "with the fold; events recorded since the push are checked for target, chat events for block filtering, private "
     "messages for the acknowledgement. After a reported divergence the model adopts the observed value so later "
     "steps judge only new divergences. A case is non-trivial when >= 2 notifications changed the model state; "
@@ -52,22 +69,32 @@ ASSUMPTIONS = [
     "Not judged: Room.user_count, whether a Room object exists for rooms only mentioned by chat or no longer listed, "
     "User.country / slots_free, which event class a notification produces, whether non-chat notifications produce an "
     "event at all (only that emitted events name the announced room/user).",
-    "The harness keeps strong references to the three User objects for the whole case (the library holds users "
-    "weakly); a user dropped and re-created by the library is outside this check.",
+    "The library stores users weakly. In 'release' cases a user that nothing references any more (observed through "
+    "UserManager.users after gc.collect()) may have forgotten status and statistics (the fold forgets them too: "
+    "'unknown' makes no false claim) but not privileges: a user looked up again must carry the privileged flag the "
+    "announcements imply. In 'hold' cases the harness's own references keep all three users alive.",
+    "UserManager.privileged_users is read as the library's public view of who is privileged and is compared with the "
+    "set of users the fold holds privileged (all user names used are among the three users).",
     "Every pushed frame is built with the repository's message classes and verified to round-trip through the "
     "codec before it is sent (parallel arrays of equal length); the codec itself is trusted here.",
     "Virtual time; 0.05 virtual seconds after a push the client has handled it (segment latency <= 4 ms per direction).",
 ]
 MIN_OBS = {
     'quick': {'sequences': 1400, 'notifications_applied': 8000, 'state_comparisons': 30000, 'events_checked': 6000,
-              'chat_blocked_judged': 100, 'chat_unblocked_judged': 300, 'acks_checked': 150, 'kinds_covered': 25, 'exhaustive_sequences': 45},
+              'chat_blocked_judged': 100, 'chat_unblocked_judged': 300, 'acks_checked': 150, 'kinds_covered': 25, 'exhaustive_sequences': 90, 'rereferenced_privilege_checks': 3000,
+              'privileged_set_comparisons': 8000, 'users_released': 100, 'lifetime_histories': 30},
     'thorough': {'sequences': 60000, 'notifications_applied': 350000, 'state_comparisons': 1200000,
                  'events_checked': 250000, 'chat_blocked_judged': 4000, 'chat_unblocked_judged': 12000,
-                 'acks_checked': 6000, 'kinds_covered': 25, 'exhaustive_sequences': 2400},
+                 'acks_checked': 6000, 'kinds_covered': 25, 'exhaustive_sequences': 5000,
+                 'rereferenced_privilege_checks': 120000, 'privileged_set_comparisons': 350000, 'users_released': 4000,
+                 'lifetime_histories': 1200},
 }
 SHARD_TIMEOUT = {'quick': 600, 'thorough': 5400}
 N_RANDOM = {'quick': 6000, 'thorough': 600000}
 WHAT_FAILS = {
+    'state:user-privileged:rereferenced-after': 'a user that was released and is looked up again carries a privileged '
+                                                'flag other than the one last announced (by the named kind)',
+    'state:privileged-set': 'UserManager.privileged_users differs from the users announced as privileged',
     'state:': 'a room/user field differs from the fold of the announcements after the named notification kind',
     'event:wrong-target': 'an event names a room/user other than the one the notification announced',
     'event:missing': 'a chat message from a user not blocked for that kind produced no event',
@@ -172,13 +199,86 @@ def gen_note(rng: random.Random, kind: str, chat_id: int) -> dict:
     return n
 
 
-def gen_random(seed: int, idx: int, length: int) -> tuple[dict, list]:
+def gen_life(rng: random.Random) -> list:
+    """A privilege-lifetime history of one user (4..6 notifications): privileges announced, the opposite announced,
+    the last reference to the user goes away, the user is referenced again."""
+    u = rng.choice(USERS[1:])
+    other = [x for x in USERS[1:] if x != u]
+    r = rng.choice(ROOMS)
+    ends_privileged = rng.random() < 0.3
+
+    def status(priv):
+        return {'k': 'GetUserStatus', 'user': u, 'status': rng.randrange(0, 3), 'privileged': priv}
+
+    def plist(with_u):
+        names = ([u] if with_u else []) + _subset(rng, other + [ME], 0.4)
+        rng.shuffle(names)
+        return {'k': 'PrivilegedUsers', 'users': names}
+
+    def user_joined(room):
+        return {'k': 'UserJoinedRoom', 'room': room, 'user': u, 'status': rng.randrange(0, 3), 'stats': _stats(rng),
+                'slots': rng.randrange(0, 4), 'country': rng.choice(_COUNTRIES)}
+
+    def we_joined(room):
+        users = [u] + _subset(rng, [x for x in USERS if x != u], 0.5)
+        rng.shuffle(users)
+        return {'k': 'JoinRoom', 'room': room,
+                'users': [[x, rng.randrange(0, 3), _stats(rng), rng.randrange(0, 4), rng.choice(_COUNTRIES)]
+                          for x in users], 'owner': None, 'operators': None}
+
+    def announce(priv):
+        if priv:
+            return rng.choice((plist(True), {'k': 'AddPrivilegedUser', 'user': u}, status(True)))
+        return rng.choice((plist(False), status(False), status(False)))
+
+    notes = []
+    first = announce(not ends_privileged)
+    live = rng.random() < 0.75
+    enter = rng.choice((user_joined, we_joined))(r) if live else None
+    head = [x for x in (first, enter) if x is not None]
+    if rng.random() < 0.5:
+        head.reverse()
+    notes.extend(head)
+    notes.append(announce(ends_privileged))
+    if live:
+        other_room = [x for x in ROOMS if x != r]
+        notes.append(rng.choice((
+            {'k': 'UserLeftRoom', 'room': r, 'user': u},
+            {'k': 'LeaveRoom', 'room': r},
+            {'k': 'RoomList', 'public': other_room if rng.random() < 0.5 else [], 'owned': [], 'private': [],
+             'operated': [], 'counts': [rng.randrange(0, 40) for _ in range(6)]})))
+    r2 = rng.choice(ROOMS)
+    notes.append(rng.choice((
+        user_joined(r2), we_joined(r2),
+        {'k': 'GetUserStats', 'user': u, 'stats': _stats(rng)},
+        {'k': 'RoomTickerAdded', 'room': r2, 'user': u, 'text': rng.choice(_TEXTS)},
+        {'k': 'PrivateRoomGrantMembership', 'room': r2, 'user': u})))
+    if rng.random() < 0.5:
+        notes.append(user_joined(rng.choice(ROOMS)))
+    return notes
+
+
+def gen_random(seed: int, idx: int, length: int) -> tuple[dict, list, bool, bool]:
+    """(blocked, notes, hold, has a lifetime history)"""
     rng = random.Random(f'{seed}:{ID}:{idx}')
     blocked = {}
     for u in USERS[1:]:
         spec = rng.choice(_BLOCK_CHOICES)
         if spec != 'none':
             blocked[u] = spec
+    hold = rng.random() < 0.4
+    if length >= 5 and rng.random() < 0.15:
+        core = gen_life(rng)[:length]
+        slots = sorted(rng.randrange(0, len(core) + 1) for _ in range(length - len(core)))
+        notes = []
+        fill = 0
+        for pos in range(len(core) + 1):
+            while fill < len(slots) and slots[fill] == pos:
+                notes.append(gen_note(rng, rng.choice(rm.KINDS), 2000 + fill))
+                fill += 1
+            if pos < len(core):
+                notes.append(core[pos])
+        return blocked, notes, hold and rng.random() < 0.5, True
     # bias a case towards a subset of kinds so that related notifications meet more often
     kinds = list(rm.KINDS)
     if rng.random() < 0.5:
@@ -190,7 +290,7 @@ def gen_random(seed: int, idx: int, length: int) -> tuple[dict, list]:
     for i in range(length):
         kind = rng.choices(kinds, weights)[0]
         notes.append(gen_note(rng, kind, 1000 + i))
-    return blocked, notes
+    return blocked, notes, hold, False
 
 
 def _alphabet() -> list[dict]:
@@ -228,6 +328,7 @@ def _alphabet() -> list[dict]:
         letters.append({'k': 'PrivateChatMessage', 'chat_id': 0, 'ts': 1_700_000_123, 'user': u, 'text': 'private chat',
                         'direct': True})
     letters.append({'k': 'GetUserStatus', 'user': 'u1', 'status': 1, 'privileged': True})
+    letters.append({'k': 'GetUserStatus', 'user': 'u1', 'status': 2, 'privileged': False})
     letters.append({'k': 'GetUserStatus', 'user': 'me', 'status': 1, 'privileged': False})
     letters.append({'k': 'GetUserStats', 'user': 'u1', 'stats': [4321, 5, 6, 7]})
     letters.append({'k': 'PrivilegedUsers', 'users': ['u1']})
@@ -255,27 +356,30 @@ def cases(tier: str, seed: int) -> list[dict]:
     out: list[dict] = []
     na = len(ALPHABET)
     for a in range(na):                       # every single notification: shortest witnesses come first
-        out.append({'mode': 'exh', 'seq': [a]})
+        for hold in (True, False):
+            out.append({'mode': 'exh', 'seq': [a], 'hold': hold})
     if tier == 'thorough':
         for a in range(na):
             for b in range(na):
-                out.append({'mode': 'exh', 'seq': [a, b]})
+                for hold in (True, False):
+                    out.append({'mode': 'exh', 'seq': [a, b], 'hold': hold})
     n = N_RANDOM[tier]
     for i in range(n):
         out.append({'mode': 'rand', 'seed': seed, 'idx': i, 'len': _length_for(i, n)})
     return out
 
 
-def expand(params: dict) -> tuple[dict, list]:
-    """(blocked, notes) of a case; explicit 'notes' (replay of a hand-written witness) win."""
+def expand(params: dict) -> tuple[dict, list, bool, bool]:
+    """(blocked, notes, hold, lifetime history) of a case; explicit 'notes' (replay of a hand-written witness) win."""
     if 'notes' in params:
-        return dict(params.get('blocked') or {}), copy.deepcopy(params['notes'])
+        return (dict(params.get('blocked') or {}), copy.deepcopy(params['notes']), bool(params.get('hold', False)),
+                False)
     if params['mode'] == 'exh':
         notes = [copy.deepcopy(ALPHABET[a]) for a in params['seq']]
         for i, n in enumerate(notes):
             if n['k'] == 'PrivateChatMessage':
                 n['chat_id'] = 500 + i
-        return dict(EXH_BLOCKED), notes
+        return dict(EXH_BLOCKED), notes, bool(params.get('hold', True)), False
     return gen_random(params['seed'], params['idx'], params['len'])
 
 
@@ -423,9 +527,20 @@ def event_targets(ev) -> tuple[list, list, bool]:
     return rooms, users, unset
 
 
+_FROZEN = False
+_CHAT_EVENTS = ('RoomMessageEvent', 'PublicMessageEvent', 'PrivateMessageEvent')
+_OPTIONAL_TARGET_EVENTS = ('RoomJoinedEvent', 'RoomLeftEvent', 'RoomMembershipGrantedEvent',
+                           'RoomMembershipRevokedEvent', 'RoomOperatorGrantedEvent', 'RoomOperatorRevokedEvent')
+
+
 def _event_brief(ev) -> dict:
+    """An event reduced to plain values: the harness must not keep the event
+    (and with it Room / User objects) alive."""
     rooms, users, unset = event_targets(ev)
-    return {'event': type(ev).__name__, 'rooms': rooms, 'users': users, 'optional_user_unset': unset}
+    brief = {'event': type(ev).__name__, 'rooms': rooms, 'users': users, 'optional_user_unset': unset}
+    if brief['event'] in _CHAT_EVENTS:
+        brief['text'] = ev.message if isinstance(ev.message, str) else ev.message.message
+    return brief
 
 
 # --------------------------------------------------------------------------
@@ -439,7 +554,15 @@ def run_case(params: dict) -> dict:
     from vf.world import World, run_world
 
     res = runner.new_result(params.get('case', 0))
-    blocked, notes = expand(params)
+    blocked, notes, hold, life = expand(params)
+    global _FROZEN
+    if not hold and not _FROZEN:
+        # 'release' cases run a full collection before every comparison; with the interpreter's long-lived objects
+        # (modules, classes, pydantic schemas) moved out of the collector's view such a collection costs ~1 ms
+        # instead of ~50 ms. Only affects this (shard) process.
+        gc.collect()
+        gc.freeze()
+        _FROZEN = True
     if not 1 <= len(notes) <= MAX_LEN:
         res['inconclusive'] = f'sequence length {len(notes)} outside 1..{MAX_LEN}'
         return res
@@ -451,14 +574,15 @@ def run_case(params: dict) -> dict:
         E.PrivateMessageEvent, E.PublicMessageEvent,
         E.UserStatusUpdateEvent, E.UserStatsUpdateEvent, E.PrivilegedUsersEvent, E.PrivilegedUserAddedEvent,
     )
-    chat_event = {'RoomChatMessage': (E.RoomMessageEvent, 'ROOM_MESSAGES'),
-                  'PublicChatMessage': (E.PublicMessageEvent, 'ROOM_MESSAGES'),
-                  'PrivateChatMessage': (E.PrivateMessageEvent, 'PRIVATE_MESSAGES')}
+    chat_event = {'RoomChatMessage': ('RoomMessageEvent', 'ROOM_MESSAGES'),
+                  'PublicChatMessage': ('PublicMessageEvent', 'ROOM_MESSAGES'),
+                  'PrivateChatMessage': ('PrivateMessageEvent', 'PRIVATE_MESSAGES')}
     trace: list = []
     changed_kinds: list = []
 
     def witness(i: int, **extra) -> dict:
-        d = {'blocked': blocked, 'notifications': notes[:i + 1], 'step': i}
+        d = {'blocked': blocked, 'references': 'hold' if hold else 'release', 'notifications': notes[:i + 1],
+             'step': i}
         d.update(extra)
         return rm.jsonable(d)
 
@@ -469,9 +593,23 @@ def run_case(params: dict) -> dict:
         h = await w.add_client(ME, settings)
         client = h.client
         await settle(0.5)
-        held = {name: client.users.get_user_object(name) for name in USERS}   # strong refs for the whole case
-        h.record(*recorded)
-        model = rm.new_state(ME, {name: real_user(u) for name, u in held.items()})
+        # 'hold': strong refs for the whole case; 'release': none at all (users live and die as in the library)
+        held = {name: client.users.get_user_object(name) for name in USERS} if hold else None
+        events: list[dict] = []          # plain values only
+
+        def on_event(ev):
+            events.append(_event_brief(ev))
+
+        for cls in recorded:
+            h.listen(cls, on_event)
+
+        def observe_user(name: str) -> dict:
+            user = held[name] if held is not None else client.users.get_user_object(name)
+            return real_user(user)       # the temporary reference ends here
+
+        model = rm.new_state(ME, {name: observe_user(name) for name in USERS})
+        last_privilege_kind = {name: 'initial' for name in USERS}
+        set_diff_known = rm.privileged_set(model) ^ set(client.users.privileged_users)
 
         for i, n in enumerate(notes):
             kind = n['k']
@@ -479,8 +617,9 @@ def run_case(params: dict) -> dict:
             why = frame_is_legal(msg)
             if why:
                 raise RuntimeError(f'harness built an illegal frame for {kind}: {why}')
-            ev0, log0, exc0, fr0 = len(h.events), len(w.log.records), len(w.loop.exceptions), len(w.server.frames)
+            ev0, log0, exc0, fr0 = len(events), len(w.log.records), len(w.loop.exceptions), len(w.server.frames)
             w.server.push(ME, msg)
+            del msg
             await settle(0.05)
             runner.add_obs(res, 'notifications_applied')
             runner.add_cover(res, 'kinds', kind)
@@ -498,6 +637,11 @@ def run_case(params: dict) -> dict:
             if nxt['rooms'] != model['rooms'] or nxt['users'] != model['users']:
                 changed_kinds.append(kind)
             model = nxt
+            if kind == 'PrivilegedUsers':
+                for name in USERS:
+                    last_privilege_kind[name] = kind
+            elif kind in rm.PRIVILEGE_KINDS:
+                last_privilege_kind[n['user']] = kind
 
             # -- safety nets -----------------------------------------------------
             bad_logs = [r for r in w.log.records[log0:] if r['level'] in ('ERROR', 'CRITICAL') and r['exc_type']]
@@ -507,7 +651,7 @@ def run_case(params: dict) -> dict:
                     i, log=[{k: r[k] for k in ('logger', 'msg', 'exc', 'tb')} for r in bad_logs[:2]],
                     loop_exceptions=bad_loop[:2]))
 
-            # -- state ------------------------------------------------------------
+            # -- state: rooms -------------------------------------------------------
             for name in sorted(model['rooms']):
                 mroom = model['rooms'][name]
                 real = real_room(client, name)
@@ -523,55 +667,77 @@ def run_case(params: dict) -> dict:
                             i, room=name, field=field, expected=mroom[field], observed=real[field],
                             room_object_missing=missing))
                         mroom[field] = copy.deepcopy(real[field])       # adopt, judge only new divergences
+
+            # -- state: who is privileged (public view of the user manager) ------------
+            runner.add_obs(res, 'privileged_set_comparisons')
+            exp_set, obs_set = rm.privileged_set(model), set(client.users.privileged_users)
+            diff = exp_set ^ obs_set
+            if diff - set_diff_known:
+                runner.violation(res, f'state:privileged-set:{kind}', witness=witness(
+                    i, expected=exp_set, observed=obs_set))
+            set_diff_known = diff
+
+            # -- state: users ------------------------------------------------------------
+            if held is None:
+                gc.collect()             # nothing but the library decides which users are still referenced
+                alive = set(client.users.users)
+            else:
+                alive = set(USERS)
             for name in USERS:
+                referenced = name in alive
+                if not referenced:
+                    runner.add_cover(res, 'released_after', kind)
+                    before = model['users'].get(name)
+                    model = rm.forget_user(model, name)
+                    if before != model['users'][name]:
+                        runner.add_obs(res, 'users_released')
                 muser = model['users'].get(name) or rm.new_user()
-                real = real_user(held[name])
+                real = observe_user(name)
                 for group, fields in (('user-status', ('status',)), ('user-privileged', ('privileged',)),
                                       ('user-stats', rm.STAT_FIELDS)):
                     runner.add_obs(res, 'state_comparisons')
+                    sig = f'state:{group}:{kind}'
+                    if group == 'user-privileged' and not referenced:
+                        # a user nothing referenced, looked up again: privileges must be remembered
+                        runner.add_obs(res, 'rereferenced_privilege_checks')
+                        sig = f'state:user-privileged:rereferenced-after:{last_privilege_kind[name]}'
                     exp = {f: muser[f] for f in fields}
                     obs = {f: real[f] for f in fields}
                     if exp != obs:
-                        runner.violation(res, f'state:{group}:{kind}', witness=witness(
-                            i, user=name, expected=exp, observed=obs))
+                        runner.violation(res, sig, witness=witness(
+                            i, user=name, referenced_by_library=referenced, expected=exp, observed=obs,
+                            privileges_last_announced_by=last_privilege_kind[name]))
                         model['users'].setdefault(name, muser).update(obs)
 
             # -- events -------------------------------------------------------------
-            new_events = [e for _, e in h.events[ev0:]]
+            new_events = events[ev0:]
             ann_rooms, ann_users = rm.announced(n, ME)
             other_targeted = 'user' in n and kind not in rm.CHAT_KINDS
             for ev in new_events:
                 runner.add_obs(res, 'events_checked')
-                runner.add_cover(res, 'kind->event', f'{kind}->{type(ev).__name__}')
-                rooms, users, unset = event_targets(ev)
-                wrong = [r for r in rooms if r not in ann_rooms] + [u for u in users if u not in ann_users]
-                if other_targeted and unset and isinstance(ev, (
-                        E.RoomJoinedEvent, E.RoomLeftEvent, E.RoomMembershipGrantedEvent,
-                        E.RoomMembershipRevokedEvent, E.RoomOperatorGrantedEvent, E.RoomOperatorRevokedEvent)):
+                runner.add_cover(res, 'kind->event', f"{kind}->{ev['event']}")
+                wrong = ([r for r in ev['rooms'] if r not in ann_rooms]
+                         + [u for u in ev['users'] if u not in ann_users])
+                if other_targeted and ev['optional_user_unset'] and ev['event'] in _OPTIONAL_TARGET_EVENTS:
                     wrong.append('user unset: reads as the own user')
                 if wrong:
                     runner.violation(res, f'event:wrong-target:{kind}', witness=witness(
-                        i, event=_event_brief(ev), not_announced=wrong))
+                        i, event=ev, not_announced=wrong))
             if kind in chat_event:
-                cls, flag = chat_event[kind]
-                evs = [e for e in new_events if isinstance(e, cls)]
+                cls_name, flag = chat_event[kind]
+                evs = [e for e in new_events if e['event'] == cls_name]
                 if is_blocked(blocked, n['user'], flag):
                     runner.add_obs(res, 'chat_blocked_judged')
                     if evs:
-                        runner.violation(res, f'event:unexpected-blocked:{kind}', witness=witness(
-                            i, events=[_event_brief(e) for e in evs]))
+                        runner.violation(res, f'event:unexpected-blocked:{kind}', witness=witness(i, events=evs))
                 else:
                     runner.add_obs(res, 'chat_unblocked_judged')
                     if not evs:
                         runner.violation(res, f'event:missing:{kind}', witness=witness(i))
                     elif len(evs) > 1:
-                        runner.violation(res, f'event:duplicate:{kind}', witness=witness(
-                            i, events=[_event_brief(e) for e in evs]))
-                    else:
-                        ev = evs[0]
-                        text = ev.message if isinstance(ev.message, str) else ev.message.message
-                        if text != n['text']:
-                            runner.violation(res, f'event:wrong-text:{kind}', witness=witness(i, text=text))
+                        runner.violation(res, f'event:duplicate:{kind}', witness=witness(i, events=evs))
+                    elif evs[0]['text'] != n['text']:
+                        runner.violation(res, f'event:wrong-text:{kind}', witness=witness(i, text=evs[0]['text']))
                 if kind == 'PrivateChatMessage':
                     runner.add_obs(res, 'acks_checked')
                     acks = [m for _, u, m in w.server.frames[fr0:]
@@ -580,7 +746,7 @@ def run_case(params: dict) -> dict:
                         runner.violation(res, 'ack:missing', witness=witness(
                             i, frames=[repr(m)[:120] for _, _, m in w.server.frames[fr0:]]))
             if len(trace) < 12:
-                trace.append({'step': i, 'kind': kind, 'events': [type(e).__name__ for e in new_events]})
+                trace.append({'step': i, 'kind': kind, 'events': [e['event'] for e in new_events]})
 
         await w.stop_clients()
         return rm.jsonable(model['rooms'])
@@ -590,12 +756,16 @@ def run_case(params: dict) -> dict:
         res['inconclusive'] = out.inconclusive
         return res
     runner.add_obs(res, 'sequences')
+    runner.add_cover(res, 'reference_modes', 'hold' if hold else 'release')
     if params.get('mode') == 'exh':
         runner.add_obs(res, 'exhaustive_sequences')
+    if life:
+        runner.add_obs(res, 'lifetime_histories')
     if len(changed_kinds) >= 2:
-        res['csigs'].append('>'.join(n['k'] for n in notes))
+        res['csigs'].append(('hold:' if hold else 'release:') + '>'.join(n['k'] for n in notes))
     res['sample'] = {'params': {k: v for k, v in params.items() if k != 'notes'}, 'blocked': blocked,
-                     'notifications': notes, 'trace': trace, 'final_model_rooms': out.result}
+                     'references': 'hold' if hold else 'release', 'notifications': notes, 'trace': trace,
+                     'final_model_rooms': out.result}
     return res
 
 
